@@ -1,5 +1,6 @@
 import GnoVerif.Base.Kit
 import GnoVerif.Model.C18Coins
+import GnoVerif.Model.C18Slices
 /-!
 Driver for C18 (coin-set arithmetic).  Op lines (coin sets are written
 `denom:amt,denom:amt`, `-` for the empty set; the denom is everything before
@@ -60,6 +61,24 @@ def arith (op : String) (A B : Coins) : Option (Except Err Coins) :=
   | "subu" => some (subUnsafe A B)
   | _ => none
 
+/-- the slice (heap) model of the same op: operands laid out like the harness does (two
+sentinel-filled spare slots); returns the outcome and both operands as read back afterwards. -/
+def arithH (op : String) (A B : Coins) : Option (Except Err Coins × Coins × Coins) :=
+  let a := Mem.mkOperand [] A 2
+  let b := Mem.mkOperand a.1 B 2
+  let run : Option (Mem.Heap × Except Err Mem.Slice) :=
+    match op with
+    | "add" => some (Mem.addH b.1 a.2 b.2)
+    | "sub" => some (Mem.subH b.1 a.2 b.2)
+    | "addu" => some (Mem.addUnsafeH b.1 a.2 b.2)
+    | "subu" => some (Mem.subUnsafeH b.1 a.2 b.2)
+    | _ => none
+  run.map fun r =>
+    (match r.2 with
+      | .ok s => .ok (Mem.read r.1 s)
+      | .error e => .error e,
+     Mem.read r.1 a.2, Mem.read r.1 b.2)
+
 def cmpOp (h : String) (A B : Coins) : Option (Except Err Bool × Coins × Coins) :=
   match h with
   | "IsAllGT" => some (isAllGT A B, A, B)
@@ -109,9 +128,13 @@ def step (_ : Unit) (t : List String) : Unit × String :=
     else
       match parseSet a, parseSet b with
       | some A, some B =>
-        match arith op A B with
-        | some r => showE (fun v => "res=" ++ showSet v) "panic:" r ++ s!" A={showSet A} B={showSet B}"
-        | none => bad
+        match arith op A B, arithH op A B with
+        | some r, some (rh, A', B') =>
+          let lm := showE (fun v => "res=" ++ showSet v) "panic:" r
+          let hm := showE (fun v => "res=" ++ showSet v) "panic:" rh
+          -- the list model and the slice model must agree on the outcome
+          (if lm == hm then lm else s!"MODELS-DISAGREE[{lm}|{hm}]") ++ s!" A={showSet A'} B={showSet B'}"
+        | _, _ => bad
       | _, _ => bad
   | ["cmp", h, a, b] =>
     match parseSet a, parseSet b with
